@@ -286,6 +286,30 @@ def run_case(case):
                                      got=dict(tower_name=r.get("tower_name"), timestamp=r.get("timestamp")),
                                      expected=dict(tower_name=nm, timestamp=exp["timestamp"]), **ctx))
 
+        # the entries are independent results, as the single runs are: what a caller does to one entry in place (re-centring its
+        # coordinates on the tower, normalising its field) leaves every other entry as it was.  Done last: values are put back.
+        ents = [(nm, i, r) for nm in names for i, r in enumerate(results.get(nm) or []) if isinstance(r, dict) and "grid" in r]
+        if len(ents) >= 2:
+            counters["independence_checks"] = counters.get("independence_checks", 0) + 1
+            arrs = [[a for a in (*r["grid"], r["conc"], r["flx"]) if isinstance(a, np.ndarray)] for _, _, r in ents]
+            snaps = [[np.array(a, copy=True) for a in row] for row in arrs]
+            try:
+                for j, (nm, i, r) in enumerate(ents):
+                    for a in arrs[j]:
+                        if a.flags.writeable:
+                            a += 1.0
+                    for j2 in range(len(ents)):
+                        if j2 != j and any(not np.array_equal(a, b_, equal_nan=True) for a, b_ in zip(arrs[j2], [x + 1.0 if j2 < j else x for x in snaps[j2]])):
+                            viol.append(dict(what="entries_share_memory", modified=(nm, i), changed=(ents[j2][0], ents[j2][1]), driver=label, **ctx))
+                            raise StopIteration
+            except StopIteration:
+                pass
+            finally:
+                for row, srow in zip(arrs, snaps):
+                    for a, b_ in zip(row, srow):
+                        if a.flags.writeable:
+                            a[...] = b_
+
     # slow-writer injection (cache on): widen the window between creating a cache entry and completing it
     real_savez = np.savez
     slow = {"on": False, "n": 0}
